@@ -9,7 +9,7 @@ VERIF = os.path.dirname(os.path.dirname(os.path.abspath(__file__)))
 T = {
  "C01": ("fault_enumeration",
          "online reference-model monitor on the driver-call tap + exhaustive single-fault injection per driver-call position",
-         "Real PFCP server driven over UDP by simulated SMFs; every forwarder.Driver call is checked against a reference rule-set model and the data-plane table is compared with the model at every quiescent point; each history is re-executed once per driver-call position x {fail-not-applied, fail-applied} (+ seeded multi-fault plans). Three data planes: model, model without final reports on URR removal, and the real gtp5g driver over the simulated kernel (rule table = the kernel's). Decides the property on the histories and fault positions executed.",
+         "Real PFCP server driven over UDP by simulated SMFs; every forwarder.Driver call is checked against a reference rule-set model and the data-plane table is compared with the model at every quiescent point; each history is re-executed once per driver-call position x {fail-not-applied, fail-applied} (+ seeded multi-fault plans). Three data planes: model, model without final reports on URR removal, and the real gtp5g driver over the simulated kernel (rule table = the kernel's); half of the histories use rule ids spread over each id's range; histories include take-over IEs naming the node's own id and late (SEID-0) answers to unanswered report requests. Decides the property on the histories and fault positions executed.",
          "Reference model and model data plane are harness code; data-plane semantics (EEXIST/ENOENT, lost-ack) are assumptions listed in evidence."),
  "C02": ("exploration",
          "reference IE->netlink-attribute translator compared with requests captured at a simulated gtp5g kernel; permutation metamorphic check",
@@ -17,15 +17,15 @@ T = {
          "go-gtp5gnl attribute numbering and go-nl are the definition of the kernel interface; the reference translator is harness code (Appendix A of DESIGN.md)."),
  "C03": ("exploration",
          "reference IE->netlink-attribute translator + perio registration-set model, requests captured at a simulated gtp5g kernel",
-         "As C02 for QER/URR/BAR; in addition the set of URRs the real perio server queries on an injected tick is compared with the set of live PERIO URRs and their periods.",
+         "As C02 for QER/URR/BAR; in addition the set of URRs the real perio server has registered (and queries on an injected tick) is compared with the set of live PERIO URRs and their periods, after creates, updates and removals (a third of the removals refused by the simulated kernel).",
          "As C02; tick injection uses a build-tagged hook that posts the same event a ticker posts."),
  "C04": ("exploration",
          "reference SEID-allocator model + structural invariants on state snapshots at quiescence; lookups by every SEID class",
-         "Random establish/delete/re-associate/SEID-0 histories over several SMFs with Modification/Deletion/Report-Response lookups by 0, live, released, beyond-table, >=2^63 and 2^64-1 SEIDs; the allocator model is stepped by the observed responses, slot/free-list invariants are checked on hook snapshots. Every history is re-run with injected data-plane faults (removals refused during tear-down, failing creates/updates/queries) and with unanswered Session Report Requests running out of retries.",
+         "Random establish/delete/re-associate/SEID-0 histories over several SMFs with Modification/Deletion/Report-Response lookups by 0, live, released, beyond-table, >=2^63 and 2^64-1 SEIDs; the allocator model is stepped by the observed responses, slot/free-list invariants are checked on hook snapshots. Every history is re-run with injected data-plane faults (removals refused during tear-down, failing creates/updates/queries) and with unanswered Session Report Requests running out of retries or answered late (SEID 0) after other requests / after the session's deletion; churn bursts free several SEIDs at once; a sixth of the histories runs on the real gtp5g driver.",
          "Snapshots are read while the event loop is idle (after a heartbeat barrier); model data plane is harness code."),
  "C05": ("exploration",
          "per-request attribution of driver calls + before/after snapshot diff of all other sessions",
-         "Histories with colliding rule ids and CP-SEIDs across peers; while a request for session S is processed every driver call must carry S's SEID and every other session's snapshot (rules, UR-SEQN counters, queues, data-plane rules) must be unchanged; re-association and SEID-0 removal sets are compared with the model; a re-issued SEID must not start with rules of an ended session. Histories are re-run with refused removals / failing creates and with report requests given up after all retries.",
+         "Histories with colliding rule ids and CP-SEIDs across peers; while a request for session S is processed every driver call must carry S's SEID and every other session's snapshot (rules, UR-SEQN counters, queues, data-plane rules) must be unchanged; re-association and SEID-0 removal sets are compared with the model; a re-issued SEID must not start with rules of an ended session. Histories are re-run with refused removals / failing creates, with report requests given up after all retries or answered late with SEID 0; a sixth runs on the real gtp5g driver over the simulated kernel, where periodic ticks are injected into the real periodic server: every periodic report must belong to a URR of the session it is delivered under that asked for that period, and every such URR is read out once.",
          "As C04."),
  "C06": ("exploration",
          "at-most-once table model over recorded datagrams, bounded-exhaustive event orders with injected retention expiries",
@@ -33,11 +33,11 @@ T = {
          "Expiry is injected through the exported NotifyTransTimeout (real timers set to 1 h); transaction tables read through a hook at quiescence."),
  "C07": ("exploration",
          "structure-aware datagram fuzzing with fatal-exit/panic capture, heartbeat liveness probe and untouched-session snapshot diff",
-         "Valid prefix, then mutated datagrams of every dispatched type from associated and unknown peers, against the no-op and the real gtp5g driver (over a simulated kernel); monitors: logrus Fatal hook, process exit, checkptr, heartbeat answer, snapshot of unaddressed sessions (a third node's and the sender's own).",
+         "Valid prefix, then mutated datagrams of every dispatched type from associated and unknown peers, against the no-op and the real gtp5g driver (over a simulated kernel); monitors: logrus Fatal hook, process exit, checkptr, heartbeat answer, snapshot of unaddressed sessions (a third node's and the sender's own); hostile messages also carry well-formed SDF Filter IEs whose flow description is invalid text (cut after a token, tokens missing/doubled/out of range).",
          "Crash signatures are bucketed by panic class + first go-upf frame; known findings listed in KNOWN_FINDINGS.txt."),
  "C08": ("exploration",
          "response-correlation monitor over the datagram log + snapshot diff for rejected/unanswered requests",
-         "Every response must come back to the request's source socket with its sequence number and the peer's SEID (0 with cause 65 for unknown sessions); accepted Establishment Responses must carry node id and a UP F-SEID that addresses the session; error/unanswered requests must leave driver log and snapshot unchanged; one recovery time stamp per server; histories include retransmissions, second sockets, take-over and re-association.",
+         "Every response must come back to the request's source socket with its sequence number and the peer's SEID (0 with cause 65 for unknown sessions); accepted Establishment Responses must carry node id and a UP F-SEID that addresses the session; error/unanswered requests must leave driver log and snapshot unchanged; an Establishment Response must not hand out a UP F-SEID another live session holds; one recovery time stamp per server; histories include retransmissions, second sockets, take-over, re-association and churn bursts (several deletions, then as many establishments).",
          "As C04."),
  "C09": ("exploration",
          "TX-transaction model over recorded datagrams with injected timer expiries, bounded-exhaustive + random event orders; real-timer cases racing a queued expiry against the answer",
@@ -49,11 +49,11 @@ T = {
          "Simulated kernel semantics are assumptions listed in evidence."),
  "C11": ("exploration",
          "per-URR-incarnation counter model over datagrams in arrival order; porcupine linearizability check of concurrent histories",
-         "UR-SEQN values per (session, URR incarnation) over all three carriers must be 0,1,2,... in arrival order at the owning SMF socket (sequential histories on two data-plane variants); concurrent histories (query clients, notification and multicast producers on the full stack) are checked for linearizability against a per-URR fetch-and-increment model with porcupine. Histories include refused removals and report requests that are never answered and given up after their last retry (the counter must not move).",
+         "UR-SEQN values per (session, URR incarnation) over all three carriers must be 0,1,2,... in arrival order at the owning SMF socket (sequential histories on two data-plane variants); concurrent histories (query clients, notification and multicast producers on the full stack) are checked for linearizability against a per-URR fetch-and-increment model with porcupine. Histories include refused removals, failed usage queries, report requests that are never answered and given up after their last retry (the counter must not move), and - on the real driver - periodic ticks whose reports continue each URR's numbering.",
          "Loopback UDP preserves order between one sender and one receiver socket; drops are detected via /proc/net/udp."),
  "C12": ("exploration",
          "reference PDR<->URR association model (derived from current lists) compared with TERMR/IMMER reports per response",
-         "Single-session histories of Create/Update/Remove PDR with arbitrary URR lists, Create/Remove/Query URR and deletion; the set of URRs that must report with TERMR (resp. IMMER) in each response is derived from the model and compared with the observed reports, each exactly once. Every history is re-run with 1-2 removals refused by the data plane (the PDR / URR then stays, with its associations).",
+         "Single-session histories of Create/Update/Remove PDR with arbitrary URR lists, Create/Remove/Query URR and deletion; the set of URRs that must report with TERMR (resp. IMMER) in each response is derived from the model and compared with the observed reports, each exactly once. Every history is re-run with 1-2 removals refused by the data plane (the PDR / URR then stays, with its associations) and with a usage query that fails (no report owed by that URR in that response); a sixth of the histories runs on the real gtp5g driver.",
          "Model data plane returns one report per query/removal of an existing URR and an error otherwise."),
  "C13": ("exploration",
          "per (session incarnation, PDR) FIFO model with unique payloads, observed at simulated gNB sockets",
@@ -61,7 +61,7 @@ T = {
          "Simulated kernel computes FAR/QER<->PDR relations like gtp5g; GTP-U decoded by the independent decoder of C14."),
  "C14": ("exploration",
          "independent GTP-U / PDU-session-container decoder over encoder output (exhaustive QFI x PDU type core) and over datagrams written by the real Gtp5g.WritePacket in sequences",
-         "All QFI 0..63 x PDU type 0..15 x with/without container x boundary TEIDs x payload lengths (thorough: every length 0..1500) decoded by an independent decoder written from TS 29.281 / TS 38.415. Sequences of 4-14 packets (lengths up and down, with/without QoS flow, changing TEIDs) go through the real Gtp5g.WritePacket to a UDP listener and are decoded by the same decoder; C13 exercises the same path from buffered packets.",
+         "All QFI 0..63 x PDU type 0..15 x with/without container x boundary TEIDs x payload lengths (thorough: every length 0..1500) decoded by an independent decoder written from TS 29.281 / TS 38.415. Sequences of 4-14 packets (lengths up and down, with/without QoS flow, changing TEIDs) go through the real Gtp5g.WritePacket to a UDP listener and are decoded by the same decoder; every second packet first goes the way a buffered packet takes (BUFFER netlink message, buffering listener, hand-over); C13 exercises the same path end to end.",
          "Decoder is harness code written from the specifications."),
  "C15": ("exploration",
          "registered-set model per period against the real perio server with injected ticks; ticker-goroutine census",
@@ -77,7 +77,7 @@ T = {
          "Race reports are attributed by the innermost non-runtime frame of each access; schedules not produced are not decided."),
  "C18": ("exploration",
          "closed-system progress monitor with deadlock witnesses from goroutine dumps (nil-channel block, wait-for cycle, loop blocked outside its select in two dumps)",
-         "Session/URR counts and report bursts swept across the internal queue capacities with bulk removals; plus real-ticker scenarios and late answers to a report burst while the loop is busy (real retransmission timers); held = all obligations complete; violated = no progress AND a witness: the loop blocked on a nil channel, a wait-for cycle among go-upf goroutines, or the loop blocked at the same frame outside its select in two dumps.",
+         "Session/URR counts and report bursts swept across the internal queue capacities with bulk removals; plus real-ticker scenarios, late answers to a report burst while the loop is busy (real retransmission timers) and more buffered-packet notifications for one PDR than its queue holds; held = all obligations complete; violated = no progress AND a witness: the loop blocked on a nil channel, a wait-for cycle among go-upf goroutines, or the loop blocked at the same frame outside its select in two dumps.",
          "Liveness restated as bounded progress / deadlock witness (DESIGN.md §4 C18)."),
  "C19": ("exploration",
          "exhaustive enumeration of flag words against tables transcribed from TS 29.244",
@@ -85,7 +85,7 @@ T = {
          "Tables transcribed from TS 29.244 are the reference."),
  "C20": ("exploration",
          "independent validity predicate over mutated YAML documents; version window through a simulated kernel",
-         "ReadConfig on single-fault (exhaustive) and multi-fault (random) mutations of a valid document: accepted => valid by an independent predicate and values unchanged; real checkVersion against GET_VERSION answers around both bounds.",
+         "ReadConfig on single-fault (exhaustive) and multi-fault (random) mutations of a valid document: accepted => valid by an independent predicate (incl. a node id that is an IPv4 literal or resolvable name, not an IPv6 literal) and values unchanged; real checkVersion against GET_VERSION answers around both bounds.",
          "Predicate deliberately broad (only clear cases alarm)."),
 }
 
